@@ -65,7 +65,11 @@ func corpus() []corpusCase {
 			o0("ORebuild"), oR("OBReset", 2), oSet("aa", "4"), oR("OBLabels", 3), o0("OSReset"), oAdd("a", "1"), oAdd("b", "2"), oR("OSLabels", 0)}}},
 		{"symbol-index-3-bytes", Prog{Probes: pr, Prefill: 33000, Ops: []Op{
 			o0("OSReset"), oAdd("a", "1"), oAdd("b", "2"), oR("OSLabels", 0), oR("OBReset", 0), oSet("ab", "3"), {K: "OBDel", Ns: names("b")}, oR("OBLabels", 1),
-			oNew(2, "fromstrings", "a", "1", "ab", "3"), o0("ORebuild")}}},
+			oNew(2, "fromstrings", "a", "1", "ab", "3")}}}, // R1 (shared table, 3-byte indexes) and R2 (own table) hold the same set
+		{"equal-across-symbol-tables-index-width", Prog{Probes: pr, Prefill: 32766, Ops: []Op{
+			// shared table: a=32766, "1"=32767 (2 bytes), b=32768, "2"=32769 (3 bytes); New/FromMap: own tables, all 2 bytes
+			o0("OSReset"), oAdd("a", "1"), oAdd("b", "2"), oR("OSLabels", 0), oNew(1, "fromstrings", "a", "1", "b", "2"),
+			oR("OBReset", 3), oSet("b", "2"), oSet("a", "1"), oR("OBLabels", 2), oNew(3, "frommap", "a", "1", "b", "3")}}},
 		// outside the protocol: the builds differ by design (each only compared with its own model)
 		{"nonprotocol-add-then-assign-empty", Prog{Probes: pr, Ops: []Op{o0("OSReset"), oAdd("a", "1"), oR("OSAssign", 3), oR("OSLabels", 0)}}},
 		{"nonprotocol-add-after-labels", Prog{Probes: pr, Ops: []Op{o0("OSReset"), oAdd("a", "1"), oR("OSLabels", 0), oAdd("b", "2"), oR("OSLabels", 1)}}},
@@ -91,6 +95,73 @@ func longStr(r *gen.Rand, tier string) string {
 		s = s[:n-1] + string(rune('p'+r.Intn(3)))
 	}
 	return s
+}
+
+// symbol-table sizes around the index-width boundaries of dedupelabels (2 bytes below 2^15,
+// 3 bytes below 2^22, then 4)
+var crossKs = []int{0, 100, 200, 32758, 32760, 32762, 32764, 32766, 32768, 32770, 32800, 32900}
+
+// crossTableProg: content-identical (and nearly identical) label sets living in DIFFERENT symbol
+// tables: R0 = FromStrings (own fresh table), R1 = ScratchBuilder on the shared table pre-filled
+// with k symbols, R2 = Builder on the shared table, R3 = FromMap/New (own table; sometimes one
+// value changed).  Equal / Compare / Hash must not depend on how wide the indexes are.
+func crossTableProg(seed uint64, i int, tier string) Prog {
+	r := gen.Fork(seed^0xC39C39, i)
+	k := crossKs[i%len(crossKs)]
+	if i >= len(crossKs) {
+		switch {
+		case tier == "thorough" && i == len(crossKs): // once: the 3/4-byte boundary
+			k = 1<<22 - 2
+		case r.Bool():
+			k = int(r.Range(32740, 32790))
+		default:
+			k = int(r.Range(0, 40000))
+		}
+	}
+	nn := 1 + r.Intn(4)
+	var ns []string
+	for len(ns) < nn {
+		s := gen.Pick(r, baseNames)
+		dup := false
+		for _, x := range ns {
+			dup = dup || x == s
+		}
+		if !dup {
+			ns = append(ns, s)
+		}
+	}
+	sort.Strings(ns)
+	var flat []string
+	p := Prog{Prefill: k}
+	p.Ops = append(p.Ops, o0("OSReset"))
+	for _, n := range ns {
+		v := gen.Pick(r, baseValues[2:]) // non-empty: the Builder drops empty values
+		if r.Chance(1, 5) {
+			v = n // a value equal to a name shares its symbol
+		}
+		flat = append(flat, n, v)
+		p.Ops = append(p.Ops, oAdd(n, v))
+	}
+	p.Ops = append(p.Ops, oR("OSLabels", 1), oNew(0, "fromstrings", flat...), oR("OBReset", 3))
+	for j := len(ns) - 1; j >= 0; j-- {
+		p.Ops = append(p.Ops, oSet(flat[2*j], flat[2*j+1]))
+	}
+	p.Ops = append(p.Ops, oR("OBLabels", 2))
+	last := append([]string{}, flat...)
+	switch r.Intn(4) {
+	case 0:
+		last[len(last)-1] += "x" // differs in the last value only
+	case 1:
+		last = last[:len(last)-2] // a proper prefix
+	}
+	p.Ops = append(p.Ops, oNew(3, gen.Pick(r, []string{"frommap", "new"}), last...))
+	if r.Chance(1, 4) { // and through a ScratchBuilder Assign of a set from another table
+		p.Ops = append(p.Ops, o0("OSReset"), oR("OSAssign", 0), oR("OSLabels", 3))
+	}
+	for _, s := range append(append([]string{}, ns...), "", "nosuch") {
+		p.Probes = append(p.Probes, bs(s))
+	}
+	return p
 }
 
 // genProg: program i of the seeded stream.
@@ -364,7 +435,20 @@ func classify(p *Prog, tS, tL, tD *Trans) class {
 	case maxLen == 254:
 		hit("string=254")
 	}
-	if p.Prefill >= 32768 {
+	if strings.HasPrefix(c.shape, "protocol") && len(p.Ops) > 0 && p.Ops[0].K == "OSReset" && len(p.Ops) > 3 && tS.Panic == "" && tD.Panic == "" {
+		// content-identical sets in different symbol tables whose index widths differ
+		for i := 0; i < K; i++ {
+			for j := 0; j < K; j++ {
+				if i != j && tD.Eq[i*K+j] && tD.Regs[i].Len > 0 && p.Prefill >= 32700 {
+					hit("equal-sets-different-symbol-tables-near-width-boundary")
+					i, j = K, K
+				}
+			}
+		}
+	}
+	if p.Prefill >= 1<<22-8 {
+		hit("symbols>=2^22")
+	} else if p.Prefill >= 32768 {
 		hit("symbols>=32768")
 	} else if p.Prefill >= 1024 {
 		hit("symbols>=1024")
